@@ -25,6 +25,11 @@ LexLines ==
     {Line("", FALSE, "rotbox", <<T("deg", 150250), T("deg", -20500), T(z, Ln(z, 2)), T(z, Ln(z, 1)), T("deg", 45000)>>, [coord |-> "J2000"]) : z \in LenNots},
     {Line("", FALSE, "centerbox", <<T("deg", 150250), T("deg", -20500), T(z, Ln(z, 2)), T(z, Ln(z, 1))>>, [coord |-> "B1950"]) : z \in LenNots},
     {Line("", FALSE, "box", <<T("deg", 150250), T("deg", -20500), T("deg", 150750), T("deg", -20000)>>, [coord |-> "J2000"])},
+    (* the two corners in any order *)
+    {Line("", FALSE, "box", <<T("deg", 150750), T("deg", -20000), T("deg", 150250), T("deg", -20500)>>, [coord |-> "J2000"]),
+     Line("", FALSE, "box", <<T("deg", 150250), T("deg", -20000), T("deg", 150750), T("deg", -20500)>>, [coord |-> "GALACTIC"]),
+     Line("", FALSE, "box", <<T("deg", 150750), T("deg", -20500), T("deg", 150250), T("deg", -20000)>>, [coord |-> "ICRS"]),
+     Line("-", FALSE, "box", <<T("pix", 20000), T("pix", 9500), T("pix", 12500), T("pix", 3000)>>, NoProps)},
     {Line("-", FALSE, "annulus", <<T("deg", 150250), T("deg", -20500), T(z, Ln(z, 1)), T(z, Ln(z, 2))>>, [coord |-> "GALACTIC"]) : z \in LenNots},
     {Line("", TRUE, "poly", <<T("deg", 150250), T("deg", -20500), T("deg", 151000), T("deg", -20000), T("deg", 150000), T("deg", -19500)>>, [coord |-> "J2000", color |-> "blue"])},
     {Line("", FALSE, "line", <<T("deg", 150250), T("deg", -20500), T("deg", 151000), T("deg", -20000)>>, [coord |-> "ICRS"])},
